@@ -38,6 +38,8 @@ pub enum Corrupt {
     Delete,
     /// header only (16 bytes) with the given generation, version 1
     HeaderOnly { gen: u16 },
+    /// a file of `len` bytes with exactly this header (record of index 0 as far as it fits, zero tail)
+    Header { m0: u32, m1: u32, segsize: u32, version: u16, gen: u16, len: u32 },
 }
 
 #[derive(Clone, Debug)]
@@ -114,6 +116,7 @@ fn corrupt_json(c: &Corrupt) -> Value {
         Corrupt::Dir => json!("dir"),
         Corrupt::Delete => json!("delete"),
         Corrupt::HeaderOnly { gen } => json!({"header_only": gen}),
+        Corrupt::Header { m0, m1, segsize, version, gen, len } => json!({"header": [m0, m1, segsize, version, gen, len]}),
     }
 }
 
@@ -137,6 +140,9 @@ fn corrupt_from(v: &Value) -> Corrupt {
     }
     if let Some(g) = v.get("random") {
         return Corrupt::Random { len: u(&g[0]) as u32, seed: u(&g[1]) as u32 };
+    }
+    if let Some(g) = v.get("header") {
+        return Corrupt::Header { m0: u(&g[0]) as u32, m1: u(&g[1]) as u32, segsize: u(&g[2]) as u32, version: u(&g[3]) as u16, gen: u(&g[4]) as u16, len: u(&g[5]) as u32 };
     }
     if let Some(g) = v.get("header_only") {
         return Corrupt::HeaderOnly { gen: u(g) as u16 };
@@ -533,7 +539,27 @@ pub fn gen_config(profile: Profile, run_seed: u64, index: u64) -> ACfg {
 }
 
 fn gen_corruption(r: &mut Rng, allow_absent: bool) -> Corrupt {
-    match r.below(12) {
+    match r.below(14) {
+        12 => {
+            // near misses of the magic number on an otherwise valid segment
+            let (a, b) = (P_MAGIC0, P_MAGIC1);
+            let bit = 1u32 << r.below(32);
+            let (m0, m1) = match r.below(8) {
+                0 => (a.swap_bytes(), b.swap_bytes()),
+                1 => (b, a),
+                2 => (a.rotate_left(16), b.rotate_left(16)),
+                3 => (a ^ bit, b),
+                4 => (a, b ^ bit),
+                5 => (a.reverse_bits(), b.reverse_bits()),
+                6 => (b.swap_bytes(), a.swap_bytes()),
+                _ => (a.swap_bytes(), b),
+            };
+            Corrupt::Header { m0, m1, segsize: 72, version: 1, gen: gen_biased(r) & !1 | 2, len: *r.pick(&[72u32, 72, 80, 4096]) }
+        }
+        13 => {
+            // well-formed header declaring a size that is too small, over a file of another length
+            Corrupt::Header { m0: P_MAGIC0, m1: P_MAGIC1, segsize: *r.pick(&[16u32, 17, 40, 64, 71]), version: 1, gen: gen_biased(r) & !1 | 2, len: *r.pick(&[16u32, 24, 40, 71, 72, 73, 80, 200]) }
+        }
         0 => {
             if allow_absent {
                 Corrupt::None
@@ -655,6 +681,15 @@ pub fn apply_corruption(path: &Path, c: &Corrupt) {
             let b = valid_segment_bytes(*gen, 0);
             write_in_place(&b[..16]);
         }
+        Corrupt::Header { m0, m1, segsize, version, gen, len } => {
+            let mut b = valid_segment_bytes(*gen, 0);
+            b[0..4].copy_from_slice(&m0.to_ne_bytes());
+            b[4..8].copy_from_slice(&m1.to_ne_bytes());
+            b[8..12].copy_from_slice(&segsize.to_ne_bytes());
+            b[12..14].copy_from_slice(&version.to_ne_bytes());
+            b.resize(*len as usize, 0);
+            write_in_place(&b);
+        }
     }
 }
 
@@ -733,6 +768,8 @@ pub struct AState {
     content_untrusted: bool,
     /// a third party overwrote the file while a client had it mapped: only termination is judged
     third_party: bool,
+    /// the daemon has begun to re-create the file and has not published into it yet
+    recreating: bool,
     max_loads_in_call: u64,
     sample_hist: Vec<Value>,
     /// no corruption in this run: the backing file keeps its inode, so one descriptor serves all reads
@@ -776,6 +813,7 @@ impl AState {
             wiped_this_inc: false,
             content_untrusted: false,
             third_party: false,
+            recreating: false,
             max_loads_in_call: 0,
             sample_hist: Vec::new(),
             stable_file: false,
@@ -871,6 +909,7 @@ impl AState {
         self.any_published = true;
         self.seg_published = true;
         self.content_untrusted = false;
+        self.recreating = false;
         self.out.nontrivial.insert("C11");
         // C17 layout: the file must now decode, by the documented layout, to exactly record k
         // (every publication at first, then a sample: long runs publish millions of records)
@@ -1013,9 +1052,16 @@ impl AState {
         self.out.probe("judged.snapshot_results");
         // (a blended or never-published record also voids the end-to-end containment promise, C01,
         // which rests on the consistent snapshot)
-        let mut props02: Vec<&'static str> = vec!["C02", "C01"];
+        // and, like an unexplained answer in the pipeline world, the client laws C05/C06, which
+        // speak of the record the daemon published
+        let mut props02: Vec<&'static str> = vec!["C02", "C01", "C05", "C06"];
         if kills > 0 {
             props02.push("C04");
+        }
+        if self.recreating {
+            // a client got hold of a file the daemon is still re-creating (C16: opening succeeds
+            // only on an initialised segment, and what is read back is what was published)
+            props02.push("C16");
         }
         let idx = match index_of(&rec) {
             Ok(i) => i,
@@ -1182,6 +1228,7 @@ impl Observer for AObserver {
                         // attach to and read must be a published record again (C02/C04a), even if the
                         // re-creation is interrupted
                         s.content_untrusted = false;
+                        s.recreating = true;
                         s.out.probe("probe.wipe_of_unusable_file");
                         if s.readers.iter().any(|r| r.call.active && r.call.gen_loads >= 1) {
                             s.out.probe("probe.wipe_during_client_copy");
@@ -1778,6 +1825,8 @@ pub fn run(cfg: &ACfg, run_seed: u64, replay: Option<Vec<u32>>, trace: bool, san
     if s.reader_access_in_write {
         out.nontrivial.insert("C02");
         out.nontrivial.insert("C01");
+        out.nontrivial.insert("C05");
+        out.nontrivial.insert("C06");
         out.probe("probe.reader_access_between_stores_of_a_write");
     }
     if s.corruptions > 0 || !matches!(cfg.init, Corrupt::None | Corrupt::SetValid { .. }) {
